@@ -249,6 +249,8 @@ def main(tier, seed, replay=None):
 ex:prefixes a owl:Ontology ; sh:declare [ sh:prefix "ex" ; sh:namespace "http://ex.org/"^^xsd:anyURI ] .
 ex:R a sh:NodeShape ; sh:targetClass ex:C0 ; sh:rule [ a sh:TripleRule ; sh:subject sh:this ; sh:predicate ex:marked ; sh:object ex:Yes ] .
 ex:R2 a sh:NodeShape ; sh:targetSubjectsOf ex:p ; sh:rule [ a sh:SPARQLRule ; sh:prefixes ex:prefixes ; sh:construct "CONSTRUCT { $this ex:linked ?o } WHERE { $this ex:p ?o . ?o ex:q ?z }" ] .
+ex:R3 a sh:NodeShape ; sh:targetClass ex:C0 , ex:C1 ; sh:rule [ a sh:SPARQLRule ; sh:prefixes ex:prefixes ; sh:construct "CONSTRUCT { $this ex:cleared true } WHERE { $this a ?c . FILTER NOT EXISTS { $this ex:q ?z } }" ] .
+ex:V3 a sh:NodeShape ; sh:targetSubjectsOf ex:q ; sh:property [ sh:path ex:cleared ; sh:maxCount 0 ] .
 ex:V a sh:NodeShape ; sh:targetSubjectsOf ex:marked ; sh:property [ sh:path ex:q ; sh:minCount 1 ] .
 ex:V2 a sh:NodeShape ; sh:targetSubjectsOf ex:linked ; sh:property [ sh:path ex:linked ; sh:maxCount %d ] .
 """
@@ -258,7 +260,7 @@ ex:V2 a sh:NodeShape ; sh:targetSubjectsOf ex:linked ; sh:property [ sh:path ex:
         triples = list(data)
         sgr = rdflib.Graph().parse(data=RULES_TTL % rng.choice([0, 0, 1]), format="turtle")
         opts = {"advanced": True, "inference": rng.choice(["none", "none", "none", "rdfs"])}
-        if rng.random() < 0.3:
+        if rng.random() < 0.5:
             opts["iterate_rules"] = True
         cr = {"sg": sgr, "data": data}
         base = S.run_validate(distribute(rng, triples, "Graph"), sgr, **opts)
